@@ -252,6 +252,45 @@ def check_unsnake(ctx, top, lists):
                 probs.append("index updates %s, spec %s" % ([ast.unparse(u) for u in upd], want_upd))
             if rev != want_rev:
                 probs.append("obstructions visited %s, spec %s (nearest to the %s first)" % ("reversed" if rev else "in order", "reversed" if want_rev else "in order", tgt))
+            # index bookkeeping of the list that is consumed later: moving `box` to `tgt` shifts the boxes in between by one
+            other = ro if lst == lo else lo
+            first_loop = (lst == lo)
+            if first_loop:
+                moved = ast.unparse(lp.target)
+                r_, b_ = Lin.var("r"), Lin.var("b")
+                want_cond = pred.atom_ge(r_ - b_ - 1) if tgt == cupv else pred.atom_ge(b_ - r_ - 1)     # r > box (towards cup) / r < box (towards cap)
+                want_delta = -1 if tgt == cupv else 1
+                touching = [s for s in lp.body if other in {x.id for x in ast.walk(s) if isinstance(x, ast.Name)}]
+                shift_ok, shown = False, [ast.unparse(s)[:80] for s in touching]
+                for s in touching:
+                    cond, delta, elem = None, None, None
+                    if isinstance(s, ast.For) and isinstance(s.iter, ast.Call) and ast.unparse(s.iter.func) == "enumerate" and ast.unparse(s.iter.args[0]) == other \
+                            and len(s.body) == 1 and isinstance(s.body[0], ast.If) and len(s.body[0].body) == 1 and isinstance(s.body[0].body[0], ast.AugAssign):
+                        idx, elem = (x.id for x in s.target.elts)
+                        aug = s.body[0].body[0]
+                        if ast.unparse(aug.target) == "%s[%s]" % (other, idx) and ast.unparse(aug.value) == "1":
+                            cond, delta = s.body[0].test, (1 if isinstance(aug.op, ast.Add) else -1)
+                    elif isinstance(s, ast.Assign) and ast.unparse(s.targets[0]) == other and isinstance(s.value, ast.ListComp) \
+                            and ast.unparse(s.value.generators[0].iter) == other and not s.value.generators[0].ifs:
+                        elem = ast.unparse(s.value.generators[0].target)
+                        e = s.value.elt
+                        if isinstance(e, ast.IfExp) and ast.unparse(e.orelse) == elem and isinstance(e.body, ast.BinOp) and ast.unparse(e.body.left) == elem and ast.unparse(e.body.right) == "1":
+                            cond, delta = e.test, (1 if isinstance(e.body.op, ast.Add) else -1)
+                        elif isinstance(e, ast.BinOp) and ast.unparse(e.left) == elem and ast.unparse(e.right) == "1":
+                            cond, delta = ast.Constant(value=True), (1 if isinstance(e.op, ast.Add) else -1)
+                    else:
+                        raise AnalysisError("unsnake: statement touching %s outside the recognised re-indexing idioms: %s" % (other, ast.unparse(s)[:80]))
+                    if cond is None:
+                        raise AnalysisError("unsnake: re-indexing of %s outside the recognised idioms: %s" % (other, ast.unparse(s)[:80]))
+                    try:
+                        f = pred.TRUE if isinstance(cond, ast.Constant) and cond.value is True else pred.nf(cond, lin_env({elem: r_, moved: b_}))
+                    except Exception as e:
+                        raise AnalysisError("unsnake: re-indexing test outside the recognised idioms: %s" % e)
+                    shift_ok = pred.equivalent(f, want_cond, Facts(free=["r", "b"])) and delta == want_delta
+                    shown = ["%s shifted by %+d when %s" % (other, delta, pred.show(f))]
+                ctx.ob("R07.3", cname + ":re-indexing", shift_ok, found=shown or "the indices recorded in %s are not updated" % other,
+                       required="%s[k] %s 1 exactly for the boxes between the moved box and %s (%s)" % (other, "-=" if want_delta < 0 else "+=", tgt, pred.show(want_cond)), mod=RW, node=lp,
+                       sig="re-indexing")
             seen[(side, lst)] = True
             ctx.ob("R07.3", cname, not probs, found="; ".join(probs) or "one interchange(box, %s), one yield, %s" % (tgt, want_upd),
                    required="exactly one interchange towards %s, one yield, %s" % (tgt, want_upd), mod=RW, node=lp, sig="accounting")
@@ -349,10 +388,18 @@ def check(ctx):
     check_unsnake(ctx, top, lists)
     check_driver(ctx, top)
     check_cup_cap(ctx)
+    from ..core import Ctx
+    from . import c05, c06
+    for dep, what in ((c05, "interchange, the primitive of every step (C05)"), (c06, "the monoidal normaliser that finishes the job (C06)")):
+        sub = Ctx(dep.__name__.rsplit(".", 1)[1].upper(), ctx.model, ctx.tier)
+        dep.check(sub)
+        bad = [o for o in sub.obs if not o.ok]
+        ctx.ob("R07.4", "%s:dependency" % sub.prop, not bad and not sub.broken and not sub.floor_failures, found=["%s %s" % (o.rule, o.construct) for o in bad][:4] or "all obligations discharged",
+               required="every step of snake removal is taken by " + what, mod=RW, node=top, sig="dep-%s:%s" % (sub.prop, ",".join(sorted({o.rule for o in bad}))))
     ctx.floor("R07.1", 8)
     ctx.floor("R07.2", 8)
-    ctx.floor("R07.3", 5)
+    ctx.floor("R07.3", 7)
     ctx.floor("R07.4", 7)
     ctx.floor("R07.5", 6)
     ctx.floor("R07.6", 2)
-    ctx.not_decided += ["re-indexing of right_obstruction inside unsnake", "equality of denotation (snake equations + interchange law, cited)"]
+    ctx.not_decided += ["equality of denotation (snake equations + interchange law, cited)"]
